@@ -9,7 +9,7 @@ From EV Require Import Base.Bytes Base.Store Base.Monad gen.Consts Codec.Types C
   Helpers.Helpers Ledger.Types Ledger.Env Ledger.Funcs Ledger.Transfers Ledger.World Corr.Exec
   LedgerProofs.Defs LedgerProofs.EnvSpec LedgerProofs.WorldDefs LedgerProofs.WorldSpec
   LedgerProofs.Spec_Transfers_Base LedgerProofs.Spec_System LedgerProofs.C07_Exec LedgerProofs.C07_Emit
-  LedgerProofs.C07_World.
+  LedgerProofs.C07_World LedgerProofs.C07_Redelivery.
 Import ListNotations.
 
 (* ------------------------------------------------------------------ *)
@@ -33,9 +33,10 @@ Section Check.
     | Some (sh, fn, i) =>
       let t0 := beqb (argn i 0) tok in
       let hasCR := bytes_in CR (tl (i_args i)) in
-      (negb (beqb fn FSetRole && t0 && hasCR) || (negb g && Nat.eqb (cnt CR (tl (i_args i))) 1))
-      && negb (beqb fn FUnSetRole && t0 && hasCR)
-      && (negb (beqb fn CRT && t0)
+      let sc := beqb (i_caller i) SC in
+      (negb (beqb fn FSetRole && sc && t0 && hasCR) || (negb g && Nat.eqb (cnt CR (tl (i_args i))) 1))
+      && negb (beqb fn FUnSetRole && sc && t0 && hasCR)
+      && (negb (beqb fn CRT && t0 && negb (i_snd i))
           || match op with
              | OCall _ _ _ => beqb (i_caller i) SC && holderb w sh (i_rcpt i)
              | ODeliver _ _ | ORefund _ _ => true
@@ -49,12 +50,12 @@ Section Check.
       apply Bool.eqb_prop. exact Hd. }
     destruct (op_exec c w op) as [[[sh fn] i]|]; [|exact I]. cbv zeta in H.
     apply andb_prop in H as [H H3]. apply andb_prop in H as [H1 H2]. split; [|split].
-    - intros (Hf & Ht & Hin). rewrite Hf, Ht, !beqb_refl in H1. apply bytes_in_true in Hin. rewrite Hin in H1.
+    - intros (Hf & Hsc & Ht & Hin). rewrite Hf, Hsc, Ht, !beqb_refl in H1. apply bytes_in_true in Hin. rewrite Hin in H1.
       cbn [andb negb orb] in H1. apply andb_prop in H1 as [Hg Hn]. split.
       + destruct g; [discriminate|reflexivity].
       + apply Nat.eqb_eq. exact Hn.
-    - intros (Hf & Ht & Hin). rewrite Hf, Ht, !beqb_refl in H2. apply bytes_in_true in Hin. rewrite Hin in H2. discriminate.
-    - intros (Hf & Ht). rewrite Hf, Ht, !beqb_refl in H3. cbn [andb negb orb] in H3.
+    - intros (Hf & Hsc & Ht & Hin). rewrite Hf, Hsc, Ht, !beqb_refl in H2. apply bytes_in_true in Hin. rewrite Hin in H2. discriminate.
+    - intros ((Hf & Ht) & Hsnd). rewrite Hf, Ht, Hsnd, !beqb_refl in H3. cbn [andb negb orb] in H3.
       destruct op; auto; [|discriminate]. apply andb_prop in H3 as [Hs Hh]. split; [apply beqb_true; exact Hs|].
       unfold holderb in Hh. apply Nat.ltb_lt in Hh. exact Hh.
   Qed.
@@ -83,6 +84,118 @@ Section Check.
     split; [|apply IH; exact H2]. unfold step_nowrapb in H1. unfold step_nowrap.
     destruct (op_exec c w op) as [[[sh fn] i]|]; [|exact I]. intros Hf Ht. rewrite Hf, Ht, !beqb_refl in H1.
     cbn in H1. apply N.ltb_lt. exact H1.
+  Qed.
+
+  (* ---- the permissive discipline of C07_Redelivery.v ---- *)
+  Fixpoint args_eqb (a b : list bytes) : bool :=
+    match a, b with [], [] => true | x :: a', y :: b' => beqb x y && args_eqb a' b' | _, _ => false end.
+  Lemma args_eqb_true : forall a b, args_eqb a b = true -> a = b.
+  Proof.
+    induction a as [|x a IH]; destruct b as [|y b]; cbn [args_eqb]; try discriminate; [reflexivity|].
+    intros H. apply andb_prop in H as [H1 H2]. apply beqb_true in H1. rewrite H1, (IH _ H2). reflexivity.
+  Qed.
+  Definition msg_eqb (a b : msg) : bool :=
+    Nat.eqb (m_id a) (m_id b) && beqb (m_fn a) (m_fn b) && beqb (m_caller a) (m_caller b) && beqb (m_dest a) (m_dest b)
+    && args_eqb (m_args a) (m_args b) && (m_callType a =? m_callType b)%N && (m_gasLimit a =? m_gasLimit b)%N
+    && (m_locked a =? m_locked b)%N && (m_origin a =? m_origin b)%N && beqb (m_sender a) (m_sender b).
+  Lemma msg_eqb_true a b : msg_eqb a b = true -> a = b.
+  Proof.
+    unfold msg_eqb. intros H. repeat (apply andb_prop in H as [H ?]).
+    destruct a, b. cbn in *.
+    repeat match goal with
+           | Hx : Nat.eqb _ _ = true |- _ => apply Nat.eqb_eq in Hx
+           | Hx : beqb _ _ = true |- _ => apply beqb_true in Hx
+           | Hx : args_eqb _ _ = true |- _ => apply args_eqb_true in Hx
+           | Hx : (_ =? _)%N = true |- _ => apply N.eqb_eq in Hx
+           end.
+    subst. reflexivity.
+  Qed.
+  Lemma aget_notin {A} (d : A) (l : amap A) a : bytes_in a (map fst l) = false -> aget d l a = d.
+  Proof.
+    induction l as [|[a' x] r IH]; [reflexivity|]. unfold bytes_in. cbn [map fst existsb aget]. intros H.
+    apply Bool.orb_false_iff in H as [H1 H2]. rewrite H1. apply IH. exact H2.
+  Qed.
+  Definition no_holderb (w : world) : bool :=
+    forallb (fun k => forallb (fun a => negb (holderb w (N.of_nat k) a)) (map fst (nth k (shards w) [])))
+            (seq 0 (length (shards w))).
+  Lemma no_holderb_ok w : no_holderb w = true -> no_holder c tok w.
+  Proof.
+    intros H sh a Hh. unfold no_holderb in H. rewrite forallb_forall in H.
+    destruct (bytes_in a (map fst (shard_accts w sh))) eqn:Ein.
+    - apply bytes_in_true in Ein.
+      destruct (Nat.lt_ge_cases (N.to_nat sh) (length (shards w))) as [Hlt|Hge].
+      + assert (Hk : In (N.to_nat sh) (seq 0 (length (shards w)))) by (apply in_seq; lia).
+        specialize (H _ Hk). rewrite forallb_forall in H. fold (shard_accts w sh) in H. specialize (H _ Ein).
+        rewrite N2Nat.id in H. unfold holderb in H. apply Bool.negb_true_iff, Nat.ltb_ge in H.
+        unfold holder in Hh. lia.
+      + unfold shard_accts in Ein. rewrite nth_overflow in Ein by exact Hge. destruct Ein.
+    - unfold holder, ncreate, wroles, roles_at, cell, acct, wst, mk_state in Hh. cbn [accts] in Hh.
+      rewrite (aget_notin _ _ _ Ein) in Hh. unfold empty_account in Hh. cbn [a_store] in Hh. rewrite sget_nil in Hh.
+      cbn in Hh. lia.
+  Qed.
+  Definition step_okb_r (g : bool) (w : world) (op : wop) : bool :=
+    dst_okb op &&
+    match op_exec c w op with
+    | None => true
+    | Some (sh, fn, i) =>
+      let t0 := beqb (argn i 0) tok in
+      let hasCR := bytes_in CR (tl (i_args i)) in
+      let sc := beqb (i_caller i) SC in
+      let deliv (id : nat) :=
+        (no_holderb w
+         && match find_msg (inflight w) id with
+            | Some m => match rev (hmsgs tok (inflight w)) with m' :: _ => msg_eqb m' m | [] => false end
+            | None => true
+            end)
+        || (holderb w sh (i_rcpt i) && (wcounter w tok sh (i_rcpt i) =? bigU64 (argn i 1))%N) in
+      (negb (beqb fn FSetRole && sc && t0 && hasCR) || (negb g && Nat.eqb (cnt CR (tl (i_args i))) 1))
+      && negb (beqb fn FUnSetRole && sc && t0 && hasCR)
+      && (negb (beqb fn CRT && t0 && negb (i_snd i))
+          || match op with
+             | OCall _ _ _ => beqb (i_caller i) SC && holderb w sh (i_rcpt i)
+             | ODeliver id _ | ORedeliver id _ | ORefund id _ => deliv id
+             end)
+    end.
+  Lemma step_okb_r_ok g w op : step_okb_r g w op = true -> step_ok_r c tok g w op.
+  Proof.
+    unfold step_okb_r, step_ok_r. intros H. apply andb_prop in H as [Hd H]. split.
+    { destruct op; cbn [dst_okb dst_ok] in *; auto. intros Ht. rewrite Ht in Hd. cbn [negb orb] in Hd.
+      apply Bool.eqb_prop. exact Hd. }
+    destruct (op_exec c w op) as [[[sh fn] i]|]; [|exact I]. cbv zeta in H.
+    apply andb_prop in H as [H H3]. apply andb_prop in H as [H1 H2]. split; [|split].
+    - intros (Hf & Hsc & Ht & Hin). rewrite Hf, Hsc, Ht, !beqb_refl in H1. apply bytes_in_true in Hin. rewrite Hin in H1.
+      cbn [andb negb orb] in H1. apply andb_prop in H1 as [Hg Hn]. split.
+      + destruct g; [discriminate|reflexivity].
+      + apply Nat.eqb_eq. exact Hn.
+    - intros (Hf & Hsc & Ht & Hin). rewrite Hf, Hsc, Ht, !beqb_refl in H2. apply bytes_in_true in Hin. rewrite Hin in H2. discriminate.
+    - intros ((Hf & Ht) & Hsnd). rewrite Hf, Ht, Hsnd, !beqb_refl in H3. cbn [andb negb orb] in H3.
+      assert (Hdel : forall id,
+                ((no_holderb w
+                  && match find_msg (inflight w) id with
+                     | Some m => match rev (hmsgs tok (inflight w)) with m' :: _ => msg_eqb m' m | [] => false end
+                     | None => true
+                     end)
+                 || (holderb w sh (i_rcpt i) && (wcounter w tok sh (i_rcpt i) =? bigU64 (argn i 1))%N))%bool = true ->
+                (no_holder c tok w /\ forall m, find_msg (inflight w) id = Some m -> exists l, hmsgs tok (inflight w) = l ++ [m])
+                \/ (holder c w tok sh (i_rcpt i) /\ wcounter w tok sh (i_rcpt i) = bigU64 (argn i 1))).
+      { intros id Hx. apply Bool.orb_true_iff in Hx as [Hx|Hx]; apply andb_prop in Hx as [Hx1 Hx2].
+        - left. split; [apply no_holderb_ok; exact Hx1|]. intros m Hfm. rewrite Hfm in Hx2.
+          destruct (rev (hmsgs tok (inflight w))) as [|m' r] eqn:Er; [discriminate|].
+          apply msg_eqb_true in Hx2. subst m'. exists (rev r). rewrite <- (rev_involutive (hmsgs tok (inflight w))), Er.
+          reflexivity.
+        - right. split; [unfold holderb in Hx1; apply Nat.ltb_lt in Hx1; exact Hx1|apply N.eqb_eq; exact Hx2]. }
+      destruct op; auto. apply andb_prop in H3 as [Hs Hh]. split; [apply beqb_true; exact Hs|].
+      unfold holderb in Hh. apply Nat.ltb_lt in Hh. exact Hh.
+  Qed.
+  Fixpoint disciplinedb_r (g : bool) (w : world) (ops : list wop) : bool :=
+    match ops with
+    | [] => true
+    | op :: r => step_okb_r g w op && disciplinedb_r (g || grant_attempt c tok w op) (wstep c w op) r
+    end.
+  Lemma disciplinedb_r_ok : forall ops g w, disciplinedb_r g w ops = true -> disciplined_r c tok g w ops.
+  Proof.
+    induction ops as [|op r IH]; intros g w H; [exact I|]. cbn [disciplinedb_r] in H. apply andb_prop in H as [H1 H2].
+    split; [apply step_okb_r_ok; exact H1|apply IH; exact H2].
   Qed.
 
   (* a world without accounts and without messages is a legitimate start *)
@@ -252,6 +365,40 @@ Example two_holders_redelivery_refuted :
   /\ issued c7_tok (snd (wrun_log c7_cfg c7_w0 c7_f9b)) = [1; 1]%N.
 Proof. vm_compute. repeat split; reflexivity. Qed.
 
+(* A history with repeated deliveries that the permissive discipline of C07_Redelivery.v accepts (and the at-most-once
+   discipline does not): the hand-over message is first delivered WITHOUT being consumed, delivered again with nothing
+   created in between, the new holder creates, hands over to carol across shards (the stale first message is still
+   in flight), that message is delivered and consumed, carol creates. *)
+Definition c7_again : list wop :=
+  [ c7_set_role 0 c7_alice c7_tok; c7_create 0 c7_alice c7_tok; c7_create 0 c7_alice c7_tok;
+    c7_handover 0 c7_alice c7_tok c7_bob;
+    ORedeliver 0 1000; ORedeliver 0 1000; c7_create 1 c7_bob c7_tok;
+    c7_handover 1 c7_bob c7_tok c7_carol; ODeliver 1 1000; c7_create 0 c7_carol c7_tok ].
+Example nonces_unique_redelivery_nonvacuous :
+  let L := issued c7_tok (snd (wrun_log c7_cfg c7_w0 c7_again)) in
+  init_ok c7_cfg c7_tok c7_w0 /\ disciplined_r c7_cfg c7_tok false c7_w0 c7_again /\ nowrap c7_cfg c7_tok c7_w0 c7_again
+  /\ disciplinedb c7_cfg c7_tok false c7_w0 c7_again = false
+  /\ length (snd (wrun_log c7_cfg c7_w0 c7_again)) = 10%nat
+  /\ length (inflight (wrun c7_cfg c7_w0 c7_again)) = 1%nat
+  /\ L = [1; 2; 3; 4]%N /\ NoDup L /\ StronglySorted N.lt L.
+Proof.
+  cbv zeta.
+  assert (Hd : disciplinedb_r c7_cfg c7_tok false c7_w0 c7_again = true) by (vm_compute; reflexivity).
+  assert (Hn : nowrapb c7_cfg c7_tok c7_w0 c7_again = true) by (vm_compute; reflexivity).
+  apply disciplinedb_r_ok in Hd. apply nowrapb_ok in Hn. pose proof (c7_init c7_tok) as Hi.
+  split; [exact Hi|]. split; [exact Hd|]. split; [exact Hn|].
+  split; [vm_compute; reflexivity|]. split; [vm_compute; reflexivity|]. split; [vm_compute; reflexivity|].
+  split; [vm_compute; reflexivity|].
+  destruct (nonces_unique_histories_redelivery c7_cfg c7_cfg_ok c7_tok c7_w0 c7_again Hi Hd Hn) as (H1 & H2 & _). auto.
+Qed.
+(* ... and the F9 history is rejected by the permissive discipline as well, at its second re-delivery (step 6) *)
+Example f9_rejected_by_permissive_discipline :
+  disciplinedb_r c7_cfg c7_tok false c7_w0 c7_f9 = false
+  /\ disciplinedb_r c7_cfg c7_tok false c7_w0 (firstn 6 c7_f9) = true
+  /\ disciplinedb_r c7_cfg c7_tok false c7_w0 c7_f9b = false
+  /\ disciplinedb_r c7_cfg c7_tok false c7_w0 c7_good = true.
+Proof. vm_compute. repeat split; reflexivity. Qed.
+
 (* the delivered branch has no authorisation of its own: a call by ANY account without a local sender account
    gives the recipient the create role and an arbitrary counter (excluded by the discipline: [hands] by OCall
    must come from the system contract) *)
@@ -298,3 +445,5 @@ Print Assumptions nonces_unique_redelivery_refuted.
 Print Assumptions two_holders_redelivery_refuted.
 Print Assumptions forged_handover_refuted.
 Print Assumptions lying_presence_flag_refuted.
+Print Assumptions disciplinedb_r_ok.
+Print Assumptions nonces_unique_redelivery_nonvacuous.
